@@ -169,6 +169,27 @@ L:
 	return r + a.V
 }
 
+// a function-local constant, a function-local type and a function-local function value named like the
+// package: selectors on them are method / field selections, not qualified identifiers
+type dur int
+
+func (d dur) M() int { return int(d) }
+
+func f3b() int {
+	const a = dur(3)
+	return a.M()
+}
+
+func f3c() int {
+	type a = dur
+	return a.M(2) // a method expression on a local type
+}
+
+func f3d() int {
+	a := func() holder { return holder{} }
+	return a().T
+}
+
 func (h holder) a() int { return h.T }
 `},
 	{Name: "generics", DotFree: true, Src: `package app
